@@ -88,6 +88,7 @@ BUF_TRUST = [
 def c09(run, a):
     vlib.extract()
     vlib.standard_lean_phase(run, 'BytesVerif.Props.C09')
+    vlib.override_cert(run, ['Read'])
     oracle_sound_buf(run, ['read_oracle_sound', 'nth_oracle_sound', 'nth_judge_sound'])
     run.trusted += BUF_TRUST
     dbg = vlib.cargo_build('debug')
@@ -108,6 +109,7 @@ def c09(run, a):
 def c12(run, a):
     vlib.extract()
     vlib.standard_lean_phase(run, 'BytesVerif.Props.C12', None, ['BytesVerif.Props.C11'])
+    vlib.override_cert(run, ['Read', 'Write'])
     oracle_sound_buf(run, ['read_oracle_sound', 'write_sound', 'write_sound_default'])
     for t in ['BytesVerif.BufMut.limit_room', 'BytesVerif.BufMut.limit_putSlice_inner', 'BytesVerif.BufMut.chain_putSlice_inner', 'BytesVerif.BufMut.writerWrite_spec']:
         ok, found, problems = vlib.audit_axioms(['BytesVerif.Props.C11'], [t], 'C12w')
@@ -135,6 +137,7 @@ def c10(run, a):
     info = vlib.extract()
     run.cov['extracted'] = info.get('Getters.lean')
     props_ok, cert_ok = vlib.standard_lean_phase(run, 'BytesVerif.Props.C10', 'BytesVerif.Cert.C10')
+    vlib.override_cert(run, ['Read'])
     oracle_sound_buf(run, ['read_oracle_sound'])
     run.trusted += BUF_TRUST + [
         "tools/extract.py (T1): getter bodies -> Body terms (sibling calls inlined), method name -> Spec, sign_extend / macro-arm / "
@@ -208,6 +211,7 @@ def c11(run, a):
     info = vlib.extract()
     run.cov['extracted'] = info.get('Putters.lean')
     props_ok, cert_ok = vlib.standard_lean_phase(run, 'BytesVerif.Props.C11', 'BytesVerif.Cert.C11')
+    vlib.override_cert(run, ['Write'])
     oracle_sound_buf(run, ['write_sound', 'write_sound_default'])
     run.trusted += [
         "hand transliteration of src/buf/{buf_mut,limit,chain,writer,uninit_slice}.rs and `unsafe impl BufMut for BytesMut` into "
